@@ -1,6 +1,8 @@
 package client
 
 import (
+	"sort"
+
 	"github.com/aliyun/alibaba-cloud-sdk-go/sdk/requests"
 	"github.com/aliyun/alibaba-cloud-sdk-go/services/ecs"
 	"github.com/aliyun/alibaba-cloud-sdk-go/services/eflo"
@@ -138,6 +140,10 @@ func (c *CreateNetworkInterfaceOptions) Finish(idempotentKeyGen IdempotentKeyGen
 			Value: v,
 		})
 	}
+	// map iteration order is random, keep the hashed request stable across retries
+	sort.Slice(tags, func(i, j int) bool {
+		return tags[i].Key < tags[j].Key
+	})
 	req.Tag = &tags
 
 	argsHash := md5Hash(req)
